@@ -319,18 +319,34 @@ JoinBlocks(it) ==
   /\ UNCHANGED <<cfg, ctl, sems, phase, arch, aRedir, hist>>
 
 \* ---- the dispatcher greenlet: event.wait(); event.clear(); dispatch()
-Dispatch ==
+\* Which queued titles travel together in one imageinfo request, in which order the list is
+\* taken, and whether it is drained completely are NOT the property's business (it quantifies
+\* over batch sizes): a dispatch may spawn any blocks of at most L queued titles.  What must hold:
+\* every queued title either stays queued or goes into a block (nothing lost, nothing invented);
+\* a title going out twice is double work (NoDoubleWork); titles left behind at the join are
+\* leftovers (NoLeftovers).
+Count(sq, t) == Cardinality({i \in DOMAIN sq : sq[i] = t})
+RECURSIVE CountIn(_, _)
+CountIn(bs, t) == IF bs = {} THEN 0 ELSE LET b == CHOOSE x \in bs : TRUE IN Count(b, t) + CountIn(bs \ {b}, t)
+Titles(bs) == UNION {Range(b) : b \in bs}
+DispatchOk(bs, rest) ==
+  /\ \A b \in bs : Len(b) >= 1 /\ Len(b) <= L
+  /\ \A t \in Range(todoImg) \cup Range(rest) \cup Titles(bs) : Count(todoImg, t) = Count(rest, t) + CountIn(bs, t)
+DispatchDo(bs, rest, twice) ==
   /\ dp /\ phase = "run"
   /\ dp' = FALSE
-  /\ IF todoImg # <<>> /\ sem["local"] > 0         \* api.idle(); spawning takes no slot, so the list is drained
-     THEN LET bs == TailBlocks(todoImg, L) IN
-          /\ todoImg' = <<>>
-          /\ items' = BagAddSet(items, {New("II", b, "local") : b \in bs})
-          /\ Note({"ii:" \o t : t \in Range(todoImg)})
-          /\ last' = [k |-> "D", a |-> <<>>, h |-> "", to |-> "event", w |-> {}, sp |-> {<<"II", b, "local">> : b \in bs}]
-     ELSE /\ UNCHANGED <<todoImg, items, hist>>
-          /\ last' = [k |-> "D", a |-> <<>>, h |-> "", to |-> "event", w |-> {}, sp |-> {}]
+  /\ todoImg' = rest
+  /\ items' = BagAddSet(items, {New("II", b, "local") : b \in bs})
+  /\ issued' = issued \cup {"ii:" \o t : t \in Titles(bs)}
+  /\ dup' = (dup \/ twice \/ {"ii:" \o t : t \in Titles(bs)} \cap issued # {})
+  /\ last' = [k |-> "D", a |-> <<>>, h |-> "", to |-> "event", w |-> {}, sp |-> {<<"II", b, "local">> : b \in bs}]
   /\ UNCHANGED <<cfg, scheduled, descTodo, redirects, sems, phase, arch, aRedir>>
+\* today's code: while imageinfo_todo and api.idle(): get_block takes the last L entries; spawning
+\* takes no semaphore slot, so an idle api drains the whole list
+Dispatch ==
+  IF todoImg # <<>> /\ sem["local"] > 0
+  THEN DispatchDo(TailBlocks(todoImg, L), <<>>, Len(todoImg) > Cardinality(Range(todoImg)))
+  ELSE DispatchDo({}, todoImg, FALSE)
 
 \* ---- main greenlet: pool.join() returned; finish(); leftover check
 \* A1: the dispatcher's wake-up runs before the pool's empty notification (gevent FIFO), so the
